@@ -254,6 +254,8 @@ MUTANTS = [
     ('C11', 'lattice_lib.py', '  monotonic_dominances = [tuple(c) for c in monotonic_dominances or []]', '  monotonic_dominances = list(monotonic_dominances or [])', 'T4', 'dominance constraints used as keys without tuple()'),
     ('C11', 'lattice_lib.py', '  range_dominances = [tuple(c) for c in range_dominances or []]', '  range_dominances = [tuple(pair) for pair in range_dominances or []]', None, 'N: comprehension variable renamed'),
     ('C16', 'kronecker_factored_lattice_lib.py', '  if units is not None and units < 1:', '  if units and units < 1:', 'N0', 'zero units skips the range check'),
+    ('C08', 'lattice_lib.py', '  if direction.lower() == "valley":', '  if direction == "valley":', 'V3c', 'joint unimodality dispatched case-sensitively'),
+    ('C16', 'lattice_layer.py', '            raise ValueError("Unknown custom lattice regularizer: %s" %\n                             (regularizer,))', '            raise ValueError("Unknown custom lattice regularizer: %s" %\n                             regularizer)', 'F0', 'tuple operand for one specifier'),
     ('C17', 'premade_lib.py', '        # going out of bound on the lattice\n        addition_score = -2.0',
      '        # going out of bound on the lattice\n        addition_score = -1.0', 'W7', 'full lattice ties with a repeat'),
     ('C17', 'premade_lib.py', '        # going out of bound on the lattice\n        addition_score = -2.0',
